@@ -487,6 +487,7 @@ impl Property for C12 {
             }
             ensure_p!(sum == m.supply, "after step {} {:?}: sum of balances {} != supply {}", step, op, sum, m.supply);
             ensure_p!(token.owner() == accts[m.owner as usize], "owner differs from reference after step {}", step);
+            ensure_p!(token.admin() == accts[m.owner as usize], "admin() differs from the reference administrator after step {}", step);
         }
         if boundary || edge_amount {
             cx.nontrivial();
